@@ -170,6 +170,18 @@ CHECKS["C16"] = dict(
    note=TB + "Bounds: files of <=2 (quick) / <=3 (thorough) records from the template family; the independent encoder is the TLA+ module itself.",
    technique="TLA+ encoder/decoder pair checked by TLC; TLC-emitted bytes decoded by the implementation and compared field by field",
    design="6/C16")
+CHECKS["C07"] = dict(
+   text="spec/CharArray.tla: a pool of arrays whose meaning is the Python list of strings; operations create arrays from arrays (row "
+        "slices, steps, reversal, boolean mask, fancy list with repeats and negative indices, empty selection; column slices and "
+        "reversal; concatenate; copy), observe (integer row / column indexing, comparison with a character, ravel) or assign (whole row, "
+        "masked; value as str or as an already encoded array). TLC explores every program to depth 2 (quick) / 3 (thorough) from every "
+        "ragged list of <=2/3 rows of <=2 symbols, deeper programs over a reduced alphabet, and checks AssignLocal (copies are "
+        "independent). Every program is replayed on EncodedRaggedArrays of five (encoding, letter) combinations and after the last step "
+        "the whole pool is compared: contents of every array and the encoding of every result.",
+   note=TB + "Excluded by the environment (numpy 2.5 / npstructures 0.2.19 fail on the unchanged tree): single-cell assignment, scalar assignment into "
+        "flat arrays, integer row access on lazily indexed views.",
+   technique="TLA+ list-of-strings model of array programs checked by TLC; every program replayed on real encoded arrays",
+   design="6/C07")
 PENDING = {}
 def main():
     props = [json.loads(l)["id"] for l in open(os.path.join(HERE, "properties.jsonl"))]
